@@ -132,7 +132,8 @@ class ChunkGen:
         if k < 2:
             return r.choice(self.strs)
         if k == 2 and sc:
-            return "tostring(%s)" % r.choice(sc)
+            v = r.choice(sc)
+            return "tostring(tonumber(%s) or type(%s))" % (v, v)   # never the address of a table/function
         if k == 3:
             return "(%s .. %s)" % (self.strx(sc, d + 1), self.strx(sc, d + 1))
         if k == 4:
@@ -402,6 +403,9 @@ ARG_TUPLES = [
 ]
 
 
+PRELUDE = "reg = function() end "   # the lua engine has no reg(); same line 1 in both variants
+
+
 def driver(variant, nargs):
     """Lua appended to a chunk: calls every closed function (directly, or its dump/load image) on
     the argument tuples; the results (and the results of calling returned functions) are emitted."""
@@ -648,8 +652,9 @@ def parse_chunk_line(line):
     unit = f[2][2:]
     parts = []
     for p in " ".join(f[3:]).split("|"):
-        idx, d1, tree, d2, nup = p[2:].split(";")
-        parts.append({"idx": -int(idx[1:], 16) if idx[0] == "-" else int(idx, 16), "d1": d1, "tree": tree, "d2": d2, "nup": int(nup, 16)})
+        idx, d1, tree, d2, nup, env = p[2:].split(";")
+        parts.append({"idx": -int(idx[1:], 16) if idx[0] == "-" else int(idx, 16), "d1": d1, "tree": tree, "d2": d2, "nup": int(nup, 16),
+                      "env": -int(env[1:], 16) if env[0] == "-" else int(env, 16)})
     return unit, parts
 
 
@@ -720,7 +725,7 @@ def run_oracle(oracle, lines):
 def run(tier, seed):
     ck = vlib.Check("C13", tier, seed, level="proof")
     ok_obl = ck.obligations(PROP, clean=False)
-    gvh, err = ck.build_gvh(pkg="./cmd/gvh-marshal", name="gvh_marshal")
+    gvh, err = ck.build_gvh(pkg="./cmd/gvh-marshal", name="gvh_marshal")   # honours VERIF_OVERLAY (mutation experiments)
     if gvh is None:
         ck.violation("harness does not build against /repo", {"kind": "build", "stderr": err[-3000:]}, no_input=True)
         return ck.finish("n/a", TRUSTED, [])
@@ -742,7 +747,7 @@ def run(tier, seed):
             if fn.endswith(".lua"):
                 chunks.append(open(vlib.os.path.join(corpus, fn)).read())
     ncorpus = len(chunks)
-    nchunks = 120 if quick else 4000
+    nchunks = 120 if quick else 1200
     for i in range(nchunks):
         g = ChunkGen(rng.fork(), size=(0.5 if i % 3 == 0 else 1.0 if i % 3 == 1 else 2.0), hist=hist)
         chunks.append(g.chunk())
@@ -802,6 +807,10 @@ def run(tier, seed):
             fails.append("dump(load(dump f)) differs from dump f")
         try:
             tree, offs = dec_dump(d1)
+            if p["nup"] != tree[6]:
+                fails.append("load() built a closure with %d upvalue cells for a code with UpvalueCount %d" % (p["nup"], tree[6]))
+            if p["nup"] > 0 and p["env"] != 0:
+                fails.append("the first upvalue of the reloaded closure is not the global environment (_ENV found at cell %d)" % p["env"])
             if tree_text(tree) != p["tree"]:
                 fails.append("the code load() built differs from the independent decoding of the dump")
             if i not in unit_cache:
@@ -855,13 +864,13 @@ def run(tier, seed):
         ck.sample({"chunk": chunks[i][:1500], "closure": j, "dump": p["d1"][:300], "reloaded_code": p["tree"][:300]})
 
     # ------------------------------------------------ stage B: behaviour of f vs load(string.dump(f))
-    nb = min(len(good_chunks), 100 if quick else 3000)
+    nb = min(len(good_chunks), 100 if quick else 1000)
     blines = []
     for n, i in enumerate(good_chunks[:nb]):
         lim = " cpu=20000000 mem=400000000" if n % 3 == 0 else ""
         nargs = 6 if quick else len(ARG_TUPLES)
-        blines.append("d%d %s%s" % (i, (chunks[i] + driver("direct", nargs)).encode().hex(), lim))
-        blines.append("r%d %s%s" % (i, (chunks[i] + driver("reload", nargs)).encode().hex(), lim))
+        blines.append("d%d %s%s" % (i, (PRELUDE + chunks[i] + driver("direct", nargs)).encode().hex(), lim))
+        blines.append("r%d %s%s" % (i, (PRELUDE + chunks[i] + driver("reload", nargs)).encode().hex(), lim))
     bout = vlib.run_lines_resilient(gvh, ["lua"], blines, per_case_timeout=60)
     beh_diff = 0
     for n in range(0, len(bout) - 1, 2):
@@ -886,6 +895,10 @@ def run(tier, seed):
                               "first_differing_event": {"direct": ta[k] if k < len(ta) else None, "reload": tb[k] if k < len(tb) else None},
                               "direct": a[:1500], "reload": b[:1500]})
     ck.log("stage B: %d chunks run twice, behaviour differences %d" % (len(bout) // 2, beh_diff))
+    nok = ck.cov["distribution"].get("behaviour:status:ok", 0)
+    if bout and nok * 2 < len(bout) // 2:
+        ck.violation("behaviour stage is vacuous: only %d of %d driver runs completed" % (nok, len(bout) // 2),
+                     {"kind": "generator", "sample": bout[0][:600]}, no_input=True)
     if bout:
         ck.sample({"behaviour_direct": bout[0][:600]})
 
@@ -894,7 +907,7 @@ def run(tier, seed):
     picks = []
     if dumps:
         small = [d for d in dumps if len(d[0]) <= 700]
-        npick = 12 if quick else 400
+        npick = 12 if quick else 200
         for _ in range(npick):
             picks.append(rng.choice(small if small and rng.chance(4, 5) else dumps[: max(1, len(dumps) * 9 // 10)]))
     muts = []
@@ -1120,7 +1133,7 @@ def replay(path, seed):
                 _, mo, _ = run_oracle(oracle, ["U unit " + unit, "u dumpu %s" % hz(p["idx"])])
                 print("closure %d: predicates %s; model bytes equal: %s" % (j, fl or "ok", len(mo) > 1 and mo[1].split(" ")[2:3] == [p["d1"]]))
         if r.get("engine") == "lua":
-            o = vlib.run_lines_resilient(gvh, ["lua"], ["d " + (r["chunk"] + r["driver_direct"]).encode().hex(), "r " + (r["chunk"] + r["driver_reload"]).encode().hex()])
+            o = vlib.run_lines_resilient(gvh, ["lua"], ["d " + (PRELUDE + r["chunk"] + r["driver_direct"]).encode().hex(), "r " + (PRELUDE + r["chunk"] + r["driver_reload"]).encode().hex()])
             print("direct:", o[0][:1500])
             print("reload:", o[1][:1500])
             print("equal :", lua_result_key(o[0]) == lua_result_key(o[1]))
